@@ -711,6 +711,14 @@ impl<'a> Gen<'a> {
     pub fn cond(&mut self) -> E {
         let ops = [Operator::Less, Operator::LessOrEqual, Operator::Equal, Operator::GreaterOrEqual, Operator::Greater, Operator::NotEqual];
         let op = bop_index(*self.rng.pick(&ops));
+        if self.rng.chance(1, 5) {
+            // a condition that is not a comparison: any numeric value, zero is false
+            return match self.rng.below(3) {
+                0 => e(EK::Var(self.rng.pick(&NUM_VARS).to_string())),
+                1 => e(EK::Un(1, Box::new(e(EK::Var(self.rng.pick(&NUM_VARS).to_string()))))),
+                _ => self.num_expr(1),
+            };
+        }
         if self.rng.chance(1, 8) {
             let l = self.str_expr(1);
             let r = self.str_expr(1);
@@ -815,7 +823,7 @@ impl<'a> Gen<'a> {
             }
             _ => {
                 let subject = self.num_expr(1);
-                let n = self.rng.range(1, 3) as usize;
+                let n = self.rng.range(0, 3) as usize;
                 let mut cases = vec![];
                 for _ in 0..n {
                     let m = self.rng.range(1, 2) as usize;
